@@ -3,7 +3,7 @@ from __future__ import annotations
 
 from mc import bootstrap
 from mc.builders import vhdx as B
-from mc.diskcheck import compare_reads, compare_sector_reads, sliced, window_models
+from mc.diskcheck import recheck_after_failure, compare_reads, compare_sector_reads, sliced, window_models
 from mc.models import DATA, boundaries, request_pairs
 
 PROPERTY = "C03"
@@ -194,3 +194,5 @@ def run_case(case, ctx):
                 ctx.outcome(disk.source((at + states.index(st)) * bs))
         compare_reads(ctx, case, v, disk, reqs, "vhdx.read", full_states, full_slots, bs, srcs)
         compare_sector_reads(ctx, case, v.read_sectors, disk, sreqs, "vhdx.read_sectors", sec, full_states, full_slots, bs)
+        if not ctx.violations and bs <= 2 * MB and not g.get("bigbuf"):
+            recheck_after_failure(ctx, case, v.read_sectors, v, disk, sreqs, reqs, "vhdx", sec)
